@@ -208,4 +208,22 @@ def mutants(ctx):
                queries=["goal_tree_S_0"], count=0),
     ]
 
-CLAIMED = False
+CLAIMED = True
+MANIFEST = {
+ "engine": "cbmc-ptg",
+ "text": "parsec-ptgpp is rebuilt from the current sources on every run and run on a corpus of 7 JDF programs (chain with a control flow, "
+         "2-D grid with descending/non-unit steps and a fan-out range, binary tree with a control gather, derived and local-index "
+         "parameters, ping-pong, and the repository's startup.jdf and Ex02_Chain.jdf). For every task class and every valuation of the "
+         "globals in a small box CBMC executes the generated code and SAT queries over symbolic task instances show: (O1) the task "
+         "count announced by internal_init equals the number of local instances of the reference execution space; (O2) the chunked "
+         "startup enumeration, driven through its AGAIN re-entries with symbolic startup_iter/chunk, creates each local startup "
+         "instance exactly once and nothing else; (O3) iterate_successors emits exactly the reference out-edges (with the right "
+         "successor repository and key), and the real parsec_update_deps_with_mask/_counter + parsec_check_IN_dependencies of "
+         "parsec.c, run on the generated tables, report 'ready' exactly at the last release of the reference in-edges. "
+         "O4 (ready exactly once under races) is C07's, the task life cycle C16's, the schedulers C08's.",
+ "note": "Programs = corpus, not arbitrary JDFs; globals enumerated, instances symbolic; reference model (space, OUT edges, IN degrees, "
+         "affinity) written by hand and cross-checked IN vs OUT by the solver; runtime services are stubs; placement is a fixed "
+         "function with 1 or 2 ranks, one VP; the composition of O1-O6 into 'runs exactly once' is a manual argument. Known finding "
+         "C01-descending-range (descending parameter ranges are never started nor released) is reported and excluded.",
+ "technique": "CBMC bounded symbolic execution of ptgpp-generated C (generator rebuilt per run) and of the real parsec.c dependency functions + SAT (cadical)",
+}
